@@ -96,8 +96,8 @@ Proof.
   - intros x [<-|Hx]; [exact (Hc t0 (or_introl eq_refl))|apply Hc; now right].
 Qed.
 
-Definition define_line (d : string * list tok) : bool * list tok :=
-  (false, head true (fst d) None ++ set_w_hd true (snd d)).
+Definition define_line (d : string * list tok) : via * list tok :=
+  (ViaDefine, head true (fst d) None ++ set_w_hd true (snd d)).
 
 Lemma define_line_macro n b : forallb okd b = true ->
   macro_from_define (head true n None ++ set_w_hd true b) = Ok (omacro n b).
@@ -128,7 +128,7 @@ Proof.
   induction ds0 as [|[n b] r IH]; intros i pre Hnd Hb; cbn [map build_table].
   - now rewrite app_nil_r.
   - cbn [forallb snd] in Hb. apply andb_true_iff in Hb. destruct Hb as [Hb Hr].
-    unfold define_line at 1. cbn [fst snd]. rewrite (define_line_macro n b Hb).
+    unfold define_line at 1. cbn [fst snd macro_of]. rewrite (define_line_macro n b Hb).
     unfold define. cbn [omacro m_name]. rewrite get_mtable.
     rewrite (dlookup_fresh pre n (map fst r)).
     2:{ rewrite map_app in Hnd. exact Hnd. }
